@@ -18,7 +18,7 @@ theorem WorldOkGen.unstale {w : World} {ctr : Nat} {y : SlabID} (H : WorldOkGen 
         (∀ hi, ¬ O y → AList.find? w.hinfo y = some hi → ClosureAt w y hi le.1 le.2 → hi.wrap = wrap) →
         le.2.size = slotSize c wrap ∧ c.isInlined = c.inlinable (le.1 - 2 * wrap)) :
     WorldOkGen D rank none O w ctr := by
-  refine ⟨H.legal, H.ids, H.addr, H.conts, ?_, H.band, H.unique, H.inlRef, H.mutIdx, H.closure, H.rank, H.below, H.idxLive⟩
+  refine ⟨H.legal, H.ids, H.addr, H.conts, ?_, H.band, H.unique, H.inlRef, H.mutIdx, H.closure, H.rank, H.below, H.idxLive, H.hinfoLive⟩
   intro p pc hp le hle x c hx hc
   obtain ⟨wr, h1, h2, h3, h4⟩ := H.slots p pc hp le hle x c hx hc
   refine ⟨wr, h1, fun _ => ?_, fun he => (by cases he), h4⟩
@@ -30,7 +30,7 @@ theorem WorldOkGen.unstale {w : World} {ctr : Nat} {y : SlabID} (H : WorldOkGen 
 /-- a world in sync is in particular in sync up to one container -/
 theorem WorldOkGen.restale {w : World} {ctr : Nat} (H : WorldOkGen D rank none O w ctr) (y : SlabID) :
     WorldOkGen D rank (some y) O w ctr := by
-  refine ⟨H.legal, H.ids, H.addr, H.conts, ?_, H.band, H.unique, H.inlRef, H.mutIdx, H.closure, H.rank, H.below, H.idxLive⟩
+  refine ⟨H.legal, H.ids, H.addr, H.conts, ?_, H.band, H.unique, H.inlRef, H.mutIdx, H.closure, H.rank, H.below, H.idxLive, H.hinfoLive⟩
   intro p pc hp le hle x c hx hc
   obtain ⟨wr, h1, h2, _, h4⟩ := H.slots p pc hp le hle x c hx hc
   have := h2 (by intro he; cases he)
@@ -61,7 +61,7 @@ theorem WorldOkGen.hinfo_sub {w w' : World} {ctr : Nat} {stale : Option SlabID}
   refine ⟨by rw [hT]; exact H.legal, ?_, ?_, ?_, ?_, ?_, hS.uniqueRef H.unique, ?_,
     hS.mutIdxOkX H.mutIdx (fun q x => by rw [hidx]), hS.closureOk H.closure hh, hS.cRank H.rank,
     hS.refsBelow H.below (Nat.le_refl _),
-    fun p x i hi => by rw [hidx] at hi; rw [hc]; exact H.idxLive p x i hi⟩
+    hS.idxLive H.idxLive (fun p x i hi => by rw [hidx] at hi; exact hi), hS.hinfoLive H.hinfoLive hh⟩
   · intro z cz hz; rw [hc] at hz; exact H.ids z cz hz
   · intro z cz hz; rw [hc] at hz; rw [ha]; exact H.addr z cz hz
   · intro z cz hz; rw [hc] at hz; rw [hT]; exact H.conts z cz hz
@@ -100,14 +100,20 @@ theorem WorldOkGen.callback_arr {w w' : World} {ctr : Nat} (H : WorldOkGen D ran
     rw [hsz] at this
     exact (slotSize_inj this).symm
   refine ⟨by rw [hT]; exact H.legal, ?_, ?_, ?_, ?_, ?_, hS.uniqueRef H.unique, ?_, ?_, ?_, hS.cRank H.rank,
-    hS.refsBelow H.below (Nat.le_refl _), ?_⟩
-  rotate_right
+    hS.refsBelow H.below (Nat.le_refl _), ?_, ?_⟩
+  rotate_right 2
   · intro q x i hi
     rw [hidx] at hi
-    rw [hc]
+    rw [hc, hc]
     split at hi
-    · rename_i hpq; obtain ⟨_, rfl⟩ := hpq; exact hysome
+    · rename_i hpq; obtain ⟨rfl, rfl⟩ := hpq; exact ⟨hysome, pa, hp⟩
     · exact H.idxLive q x i hi
+  · intro x hi hx
+    rw [hh] at hx
+    rw [hc]
+    split at hx
+    · cases hx; rw [hpar, hp]; rfl
+    · exact H.hinfoLive x hi hx
   · intro z cz hz; rw [hc] at hz; exact H.ids z cz hz
   · intro z cz hz; rw [hc] at hz; rw [ha]; exact H.addr z cz hz
   · intro z cz hz; rw [hc] at hz; rw [hT]; exact H.conts z cz hz
@@ -185,7 +191,14 @@ theorem WorldOkGen.callback_map {w w' : World} {ctr : Nat} (H : WorldOkGen D ran
   have hmok : MapOk w.T (D p) pm ctr := H.conts p _ hp
   refine ⟨by rw [hT]; exact H.legal, ?_, ?_, ?_, ?_, ?_, hS.uniqueRef H.unique, ?_,
     hS.mutIdxOkX H.mutIdx (fun q x => by rw [hidx]), ?_, hS.cRank H.rank, hS.refsBelow H.below (Nat.le_refl _),
-    fun q x i hi => by rw [hidx] at hi; rw [hc]; exact H.idxLive q x i hi⟩
+    hS.idxLive H.idxLive (fun q x i hi => by rw [hidx] at hi; exact hi), ?_⟩
+  rotate_right
+  · intro x hi hx
+    rw [hh] at hx
+    rw [hc]
+    split at hx
+    · cases hx; rw [hpar, hp]; rfl
+    · exact H.hinfoLive x hi hx
   · intro z cz hz; rw [hc] at hz; exact H.ids z cz hz
   · intro z cz hz; rw [hc] at hz; rw [ha]; exact H.addr z cz hz
   · intro z cz hz; rw [hc] at hz; rw [hT]; exact H.conts z cz hz
@@ -253,7 +266,7 @@ theorem WorldOkGen.shrink {w : World} {ctr : Nat} {O' : SlabID → Prop} (H : Wo
     (hfaith : ∀ x c, O x → ¬ O' x → w.cont? x = some c → ∀ hi lim e, AList.find? w.hinfo x = some hi →
       ClosureAt w x hi lim e → e.size = slotSize c hi.wrap) :
     WorldOkGen D rank none O' w ctr := by
-  refine ⟨H.legal, H.ids, H.addr, H.conts, ?_, H.band, H.unique, ?_, ?_, H.closure, H.rank, H.below, H.idxLive⟩
+  refine ⟨H.legal, H.ids, H.addr, H.conts, ?_, H.band, H.unique, ?_, ?_, H.closure, H.rank, H.below, H.idxLive, H.hinfoLive⟩
   · intro p pc hp le hle x c hx hc
     obtain ⟨wr, h1, h2, h3, h4⟩ := H.slots p pc hp le hle x c hx hc
     refine ⟨wr, h1, h2, h3, ?_⟩
